@@ -520,3 +520,15 @@ unsafe impl RegionContains<ShardIndex> for ShardIndex {
         }
     }
 }
+
+#[cfg(feature = "verif-hooks")]
+#[doc(hidden)]
+pub mod verif_hooks {
+    pub fn shard_index_for(num_shards: usize, first_ancestor: usize) -> usize {
+        super::shard_index_for(num_shards, first_ancestor)
+    }
+    /// (region, number of root children) per shard
+    pub fn shard_regions(num_shards: usize) -> Vec<(crate::page_region::PageRegion, usize)> {
+        super::shard_regions(num_shards)
+    }
+}
